@@ -187,6 +187,8 @@ type fixture struct {
 	logstore *raftstore.LevelDBStore
 	fsm      *FSM
 	fss      *raft.FileSnapshotStore
+	// called after FSM.Snapshot() returned and before Persist() runs
+	betweenSnapshotAndPersist func()
 }
 
 func newFixture(dir string) *fixture {
@@ -262,6 +264,10 @@ func (f *fixture) snapshot(index uint64, compactionStart int64, failAfter int) (
 		return nil, false, err
 	}
 	rs := s.(*robustSnapshot)
+	if f.betweenSnapshotAndPersist != nil {
+		// raft persists a snapshot on another goroutine while the state machine goes on applying
+		f.betweenSnapshotAndPersist()
+	}
 	sink, err := f.fss.Create(1, index, 1, raft.Configuration{}, 0, &rafthttp.HTTPTransport{})
 	if err != nil {
 		return rs, false, fmt.Errorf("fss.Create: %v", err)
